@@ -4,6 +4,7 @@ import (
 	"context"
 	"fmt"
 	mrand "math/rand/v2"
+	"net/netip"
 	"sort"
 	"strings"
 	"sync/atomic"
@@ -20,10 +21,14 @@ import (
 type entry struct {
 	Has     bool     `json:"has"`
 	Ver     int      `json:"version"`
-	At      int64    `json:"fetched_at"` // virtual second at which the upstream produced the answer
-	TTLs    []uint32 `json:"ttls"`       // TTLs of the records of that answer, in answer order
-	Empty   bool     `json:"empty,omitempty"`
-	Certain bool     `json:"certain"` // false: the cache is smaller than the working set, the entry may be gone
+	At      int64    `json:"fetched_at"`           // virtual second at which the upstream produced the answer
+	TTLs    []uint32 `json:"ttls"`                 // TTLs of ALL records of that response, in answer order (CNAMEs, the RRSet, unrelated extras)
+	Own     []uint32 `json:"rrset_ttls,omitempty"` // of the records the lookup returns (the RRSet at the end of the CNAME chain)
+	CN      []uint32 `json:"cname_ttls,omitempty"` // of the CNAME records of the chain
+	Ex      []uint32 `json:"extra_ttls,omitempty"` // of records owned by an unrelated name
+	End     string   `json:"data_from,omitempty"`  // name at the end of the CNAME chain when the answer was fetched
+	Empty   bool     `json:"empty,omitempty"`      // no record of the asked type (the response may still carry CNAMEs / extras)
+	Certain bool     `json:"certain"`              // false: the cache is smaller than the working set, the entry may be gone
 	Why     string   `json:"why,omitempty"`
 	Jumped  bool     `json:"clock_stepped_during_fetch,omitempty"`
 }
@@ -35,13 +40,172 @@ type seqOp struct {
 	JumpAt int     `json:"step_at_query,omitempty"`    // resolve: the clock steps when the n-th upstream query arrives
 	Fail   string  `json:"fail,omitempty"`             // fail: none | servfail | http400
 	Size   int     `json:"size,omitempty"`             // cachesize
-	Spec   any     `json:"new_rrsets,omitempty"`       // zone: RRSets that changed shape
+	Spec   any     `json:"zone_change,omitempty"`      // zone: what changed besides the data version
 	Clock  int64   `json:"clock"`                      // virtual second at the start of the op
 	Ver    int     `json:"zone_version"`               // data version installed when the op started
 	Q      *[3]int `json:"upstream_queries,omitempty"` // resolve: queries seen for HTTPS, A, AAAA
 	Got    *[3]int `json:"served_versions,omitempty"`  // resolve: version of the HTTPS, A, AAAA data returned (-1 empty)
 	Err    string  `json:"error,omitempty"`
 	Expect string  `json:"model,omitempty"` // per key: what the model demanded
+}
+
+// ---- zone of a sequential history: data names, CNAME aliases with their own TTLs, unrelated extra records ---------
+
+// strictNoData: how to judge a response that carries records (CNAMEs of the chain, unrelated extras) but none of the
+// asked type. Read literally, the statement gives such an answer the smallest TTL of those records. The resolver
+// treats it like a response without any record (cached 300 s); the 300 s rule for empty answers is an accepted
+// leniency of this check, so the default extends it to this class (either outcome accepted up to 300 s). With true,
+// the class is judged by the smallest TTL of the records present (signature stale:no-data-answer-...).
+const strictNoData = false
+
+type cname struct {
+	Target string `json:"target"`
+	TTL    uint32 `json:"ttl"`
+}
+
+// extraRR: one record owned by extra.zz (not related to any name looked up) that the server adds to the answers of
+// one (name, qtype), before or after the genuine records. The resolver must ignore its data, but it is a record of
+// the response, so its TTL bounds the lifetime of the cached answer.
+type extraRR struct {
+	TTL    uint32 `json:"ttl"`
+	Type   string `json:"type"` // A | AAAA | CNAME
+	Before bool   `json:"before,omitempty"`
+}
+
+type seqZone struct {
+	Data  zoneSpec                `json:"rrsets"`                  // data names
+	Alias map[string]cname        `json:"cnames,omitempty"`        // alias -> target (a data name or an alias that points to a data name)
+	Extra map[string]*[3]*extraRR `json:"extra_records,omitempty"` // query name -> HTTPS, A, AAAA
+}
+
+func (z *seqZone) clone() *seqZone {
+	c := &seqZone{Data: z.Data.clone(), Alias: map[string]cname{}, Extra: map[string]*[3]*extraRR{}}
+	for k, v := range z.Alias {
+		c.Alias[k] = v
+	}
+	for k, v := range z.Extra {
+		e := *v
+		c.Extra[k] = &e
+	}
+	return c
+}
+
+// chain follows the aliases from name: TTLs of the CNAME records on the way and the name the data comes from.
+func (z *seqZone) chain(name string) (ttls []uint32, end string) {
+	for hops := 0; hops < 4; hops++ {
+		c, ok := z.Alias[name]
+		if !ok {
+			break
+		}
+		ttls = append(ttls, c.TTL)
+		name = c.Target
+	}
+	return ttls, name
+}
+
+// response: TTLs of the records the server puts in the answer to (name, qtype k), as the recursive resolver it
+// plays does: [extra] CNAME... RRSet-at-the-end... [extra].
+func (z *seqZone) response(name string, k int) (all, own, cn, ex []uint32, end string) {
+	cn, end = z.chain(name)
+	if d := z.Data[end]; d != nil {
+		own = d[k].TTLs
+	}
+	var e *extraRR
+	if x := z.Extra[name]; x != nil {
+		e = x[k]
+	}
+	if e != nil {
+		ex = []uint32{e.TTL}
+		if e.Before {
+			all = append(all, e.TTL)
+		}
+	}
+	all = append(append(all, cn...), own...)
+	if e != nil && !e.Before {
+		all = append(all, e.TTL)
+	}
+	return all, own, cn, ex, end
+}
+
+func (z *seqZone) install(srv *dohfake.Server, v int) {
+	rrs := z.Data.records(v)
+	for a, c := range z.Alias {
+		rrs[a] = []dohfake.RR{dohfake.CNAME(a, c.Target, c.TTL)}
+	}
+	poison := map[dohfake.Key]dohfake.Poison{}
+	for name, x := range z.Extra {
+		for k, e := range x {
+			if e == nil {
+				continue
+			}
+			var rr dohfake.RR
+			switch e.Type {
+			case "A":
+				rr = dohfake.Addr("extra.zz", netip.AddrFrom4([4]byte{192, 0, 2, 7}), e.TTL)
+			case "AAAA":
+				rr = dohfake.Addr("extra.zz", netip.MustParseAddr("2001:db8::7"), e.TTL)
+			default:
+				rr = dohfake.CNAME("extra.zz", "other.zz", e.TTL)
+			}
+			p := dohfake.Poison{After: []dohfake.RR{rr}}
+			if e.Before {
+				p = dohfake.Poison{Before: []dohfake.RR{rr}}
+			}
+			poison[dohfake.Key{Name: name, Type: qtypes[k]}] = p
+		}
+	}
+	srv.Update(func(zz *dohfake.Zone) { zz.RRs, zz.Poison = rrs, poison })
+}
+
+func (z *seqZone) dataNames() []string {
+	var out []string
+	for _, n := range pool {
+		if _, alias := z.Alias[n]; !alias {
+			out = append(out, n)
+		}
+	}
+	return out
+}
+
+func (z *seqZone) aliasNames() []string {
+	var out []string
+	for _, n := range pool {
+		if _, alias := z.Alias[n]; alias {
+			out = append(out, n)
+		}
+	}
+	return out
+}
+
+// repointTargets: where alias a may point next without making a chain longer than two CNAMEs or a loop.
+func (z *seqZone) repointTargets(a string) []string {
+	out := z.dataNames()
+	pointedAt := false
+	for _, c := range z.Alias {
+		pointedAt = pointedAt || c.Target == a
+	}
+	if !pointedAt {
+		for _, b := range z.aliasNames() {
+			if _, viaAlias := z.Alias[z.Alias[b].Target]; b != a && !viaAlias {
+				out = append(out, b)
+			}
+		}
+	}
+	var keep []string
+	for _, t := range out {
+		if t != z.Alias[a].Target {
+			keep = append(keep, t)
+		}
+	}
+	return keep
+}
+
+func cnameTTL(rng *mrand.Rand) uint32 {
+	return []uint32{0, 1, 2, 2, 5, 5, 30, 60, 300, 3600}[rng.IntN(10)]
+}
+
+func genExtra(rng *mrand.Rand) *extraRR {
+	return &extraRR{TTL: []uint32{0, 1, 2, 5, 30}[rng.IntN(5)], Type: []string{"A", "AAAA", "CNAME"}[rng.IntN(3)], Before: rng.IntN(2) == 0}
 }
 
 var failNames = map[int]string{dohfake.FailNone: "none", dohfake.FailServfail: "servfail", dohfake.FailHTTP400: "http400"}
@@ -54,7 +218,7 @@ type seqHist struct {
 	res          *ech.Resolver
 	clock        *vclock
 	names        []string
-	specs        []zoneSpec // by data version
+	specs        []*seqZone // by data version
 	ver          int
 	fail         int
 	size         int // cache size (0 = disabled)
@@ -66,7 +230,7 @@ type seqHist struct {
 }
 
 func (h *seqHist) payload() map[string]any {
-	return map[string]any{"names": h.names, "initial_rrsets": h.specs[0], "history": h.ops,
+	return map[string]any{"names": h.names, "initial_zone": h.specs[0], "history": h.ops,
 		"model_entries_now": h.entries, "note": "TTL unit: seconds; clock: virtual seconds since the start of the history"}
 }
 
@@ -99,17 +263,50 @@ func (e *env) seqHistory(work string, idx int, rng *mrand.Rand) {
 	h := &seqHist{e: e, work: work, idx: idx, srv: srv, clock: newClock(), size: 32,
 		entries: map[string]*[3]entry{}, counts: map[string]int64{}, classes: map[string]bool{}}
 	defer bind(h.clock)()
+	// All four names exist in the zone; 0..2 of them are CNAME aliases (the second one may point to the first: a
+	// chain of two), the others carry data. The history looks up 1..4 of them, aliases preferred.
+	spec := &seqZone{Data: zoneSpec{}, Alias: map[string]cname{}, Extra: map[string]*[3]*extraRR{}}
+	perm := rng.Perm(len(pool))
+	nAlias := []int{0, 1, 1, 2, 2}[rng.IntN(5)]
+	for i, k := range perm {
+		name := pool[k]
+		switch {
+		case i >= nAlias:
+			spec.Data[name] = &[3]rrset{seqSet(rng, kHTTPS), seqSet(rng, kA), seqSet(rng, kAAAA)}
+		case i == 1 && rng.IntN(2) == 0:
+			spec.Alias[name] = cname{pool[perm[0]], cnameTTL(rng)}
+		default:
+			spec.Alias[name] = cname{pool[perm[nAlias+rng.IntN(len(pool)-nAlias)]], cnameTTL(rng)}
+		}
+	}
 	nNames := 1 + rng.IntN(4)
-	spec := zoneSpec{}
-	for _, k := range rng.Perm(len(pool))[:nNames] {
+	look := rng.Perm(len(pool))[:nNames]
+	if nAlias > 0 && rng.IntN(4) > 0 {
+		look[0] = perm[rng.IntN(nAlias)] // an alias
+		for i := 1; i < len(look); i++ {
+			if look[i] == look[0] {
+				look[i] = look[len(look)-1]
+				look = look[:len(look)-1]
+				break
+			}
+		}
+	}
+	for _, k := range look {
 		name := pool[k]
 		h.names = append(h.names, name)
-		spec[name] = &[3]rrset{seqSet(rng, kHTTPS), seqSet(rng, kA), seqSet(rng, kAAAA)}
 		h.entries[name] = &[3]entry{{Why: "first"}, {Why: "first"}, {Why: "first"}}
+		for k := 0; k < 3; k++ {
+			if rng.IntN(6) == 0 {
+				if spec.Extra[name] == nil {
+					spec.Extra[name] = &[3]*extraRR{}
+				}
+				spec.Extra[name][k] = genExtra(rng)
+			}
+		}
 	}
 	sort.Strings(h.names)
-	h.specs = []zoneSpec{spec}
-	install(srv, spec, 0)
+	h.specs = []*seqZone{spec}
+	spec.install(srv, 0)
 	res, err := ech.NewResolver(srv.URL)
 	if err != nil {
 		r.Inconclusive("fixture: NewResolver(%q): %v", srv.URL, err)
@@ -117,7 +314,7 @@ func (e *env) seqHistory(work string, idx int, rng *mrand.Rand) {
 	}
 	h.res = res
 	if idx < 2 {
-		r.Sample(map[string]any{"part": "seq", "names": h.names, "rrsets": spec})
+		r.Sample(map[string]any{"part": "seq", "names_looked_up": h.names, "zone": spec})
 	}
 
 	nOps := 10 + rng.IntN(31)
@@ -140,16 +337,49 @@ func (e *env) seqHistory(work string, idx int, rng *mrand.Rand) {
 			h.clock.Advance(time.Duration(op.D) * time.Second)
 		case p < 88:
 			op.Kind = "zone"
+			// every zone change gives all records new data (the version); some also change the shape of the zone
 			ns := h.specs[h.ver]
-			if rng.IntN(3) == 0 { // one RRSet changes shape (TTLs, number of records, empty <-> non-empty)
+			aliases := ns.aliasNames()
+			switch c := rng.IntN(8); {
+			case c < 2: // one RRSet changes shape (TTLs, number of records, empty <-> non-empty)
+				ns = ns.clone()
+				data := ns.dataNames()
+				name, k := data[rng.IntN(len(data))], rng.IntN(3)
+				ns.Data[name][k] = seqSet(rng, k)
+				op.Spec = map[string]any{"name": name, "type": qnames[k], "rrset": ns.Data[name][k]}
+			case c < 5 && len(aliases) > 0: // a CNAME is repointed
+				a := aliases[rng.IntN(len(aliases))]
+				if to := ns.repointTargets(a); len(to) > 0 {
+					ns = ns.clone()
+					nc := cname{to[rng.IntN(len(to))], ns.Alias[a].TTL}
+					if rng.IntN(3) == 0 {
+						nc.TTL = cnameTTL(rng)
+					}
+					ns.Alias[a] = nc
+					op.Spec = map[string]any{"name": a, "cname": nc}
+					h.counts["seq_cname_repointings"]++
+				}
+			case c == 5 && len(aliases) > 0: // a CNAME gets another TTL
+				ns = ns.clone()
+				a := aliases[rng.IntN(len(aliases))]
+				ns.Alias[a] = cname{ns.Alias[a].Target, cnameTTL(rng)}
+				op.Spec = map[string]any{"name": a, "cname": ns.Alias[a]}
+			case c == 6: // an unrelated extra record appears in / disappears from the answers of one (name, qtype)
 				ns = ns.clone()
 				name, k := h.names[rng.IntN(len(h.names))], rng.IntN(3)
-				ns[name][k] = seqSet(rng, k)
-				op.Spec = map[string]any{"name": name, "type": qnames[k], "rrset": ns[name][k]}
+				if ns.Extra[name] == nil {
+					ns.Extra[name] = &[3]*extraRR{}
+				}
+				if ns.Extra[name][k] == nil {
+					ns.Extra[name][k] = genExtra(rng)
+				} else {
+					ns.Extra[name][k] = nil
+				}
+				op.Spec = map[string]any{"name": name, "type": qnames[k], "extra_record": ns.Extra[name][k]}
 			}
 			h.ver++
 			h.specs = append(h.specs, ns)
-			install(srv, ns, h.ver)
+			ns.install(srv, h.ver)
 			h.counts["seq_zone_changes"]++
 		case p < 96:
 			op.Kind = "fail"
@@ -239,9 +469,13 @@ func (h *seqHist) decide(en *entry, now int64) (class, reason string) {
 		return mustFetch, "cache-disabled"
 	case !en.Has:
 		return mustFetch, en.Why
-	case en.Empty && now-en.At < 300:
+	case en.Empty && len(en.TTLs) == 0 && now-en.At < 300:
 		return lenient, "empty-answer-under-300s"
-	case en.Empty:
+	case en.Empty && len(en.TTLs) == 0:
+		return mustFetch, "empty-answer-300s-old"
+	case en.Empty && !strictNoData && now-en.At < 300: // CNAMEs / extras but no record of the type: see strictNoData
+		return lenient, "no-data-answer-under-300s"
+	case en.Empty && !strictNoData:
 		return mustFetch, "empty-answer-300s-old"
 	}
 	tau, age := int64(minTTL(en.TTLs)), now-en.At
@@ -263,6 +497,14 @@ func (h *seqHist) decide(en *entry, now int64) (class, reason string) {
 // staleSig: signature of "no upstream query although the statement demands one".
 func staleSig(reason string, en *entry, now int64) string {
 	age := now - en.At
+	if which := forcedBy(en, age); which != "" && (reason == "ttl0-mixed" || reason == "expired" || reason == "expired-exactly") {
+		// the returned records alone are still within their TTLs: the answer is too old only because of a record
+		// of the response that the lookup does not return
+		if en.Empty {
+			return "stale:no-data-answer-served-beyond-" + which + "-ttl"
+		}
+		return "stale:" + which + "-ttl-ignored"
+	}
 	switch reason {
 	case "ttl0-mixed":
 		if age < int64(minPosTTL(en.TTLs)) {
@@ -290,6 +532,21 @@ func staleSig(reason string, en *entry, now int64) string {
 		return "stale:served-from-cache-although-disabled"
 	}
 	return "stale:no-upstream-query:" + reason // first, cache-reset
+}
+
+// forcedBy: "cname" / "extra-record" when an answer of this age is past the TTL of a CNAME / unrelated record of its
+// response while every record the lookup returns is still within its own TTL; "" otherwise.
+func forcedBy(en *entry, age int64) string {
+	if len(en.Own) > 0 && age >= int64(minTTL(en.Own)) {
+		return ""
+	}
+	switch {
+	case len(en.CN) > 0 && age >= int64(minTTL(en.CN)):
+		return "cname"
+	case len(en.Ex) > 0 && age >= int64(minTTL(en.Ex)):
+		return "extra-record"
+	}
+	return ""
 }
 
 // resolve runs one Resolve and judges it. It returns true when model and implementation can no longer be
@@ -343,7 +600,8 @@ func (h *seqHist) resolve(op *seqOp) (stop bool) {
 		h.counts["seq_clock_steps_during_query"]++
 		h.classes["clock-step-during-query"] = true
 	}
-	spec := h.specs[h.ver][op.Name]
+	zone := h.specs[h.ver]
+	_, endNow := zone.chain(op.Name)
 	ents := h.entries[op.Name]
 	var want [3]int // version each key must show; verBad = unknown
 	var expect []string
@@ -355,6 +613,43 @@ func (h *seqHist) resolve(op *seqOp) (stop bool) {
 		h.classes[class+"/"+reason] = true
 		h.counts["seq_lookups"]++
 		age := now - en.At
+		if endNow != op.Name {
+			h.counts["seq_lookups_through_cname"]++
+		}
+		if en.Has && h.size > 0 {
+			if len(en.Ex) > 0 {
+				h.counts["seq_lookups_of_answers_with_extra_record"]++
+			}
+			if len(en.CN) > 0 && len(en.Own) > 0 {
+				switch {
+				case minTTL(en.CN) == 0:
+					h.counts["seq_lookups_cname_ttl0"]++
+				case minTTL(en.CN) < minTTL(en.Own):
+					h.counts["seq_lookups_cname_ttl_below_rrset_ttl"]++
+				case minTTL(en.CN) > minTTL(en.Own):
+					h.counts["seq_lookups_cname_ttl_above_rrset_ttl"]++
+				}
+			}
+			if class == mustFetch && !en.Empty {
+				switch forcedBy(en, age) {
+				case "cname":
+					h.counts["seq_refetch_forced_by_cname_ttl_only"]++
+					h.classes["refetch-forced-by-cname-ttl"] = true
+				case "extra-record":
+					h.counts["seq_refetch_forced_by_extra_record_ttl_only"]++
+					h.classes["refetch-forced-by-extra-ttl"] = true
+				}
+			}
+			if class == mustServe && len(en.CN) > 0 {
+				h.counts["seq_served_within_cname_ttl"]++
+				if en.End != endNow {
+					h.counts["seq_served_within_ttl_after_repointing"]++
+				}
+			}
+			if en.Empty && len(en.TTLs) > 0 {
+				h.counts["seq_lookups_of_no_data_answers_with_records"]++
+			}
+		}
 		switch reason {
 		case "ttl0-only":
 			h.counts["seq_ttl0_only_lookups"]++
@@ -426,7 +721,8 @@ func (h *seqHist) resolve(op *seqOp) (stop bool) {
 			h.failedBefore = true
 			break
 		}
-		*en = entry{Has: true, Ver: h.ver, At: now, TTLs: spec[k].TTLs, Empty: len(spec[k].TTLs) == 0, Certain: h.size >= 16,
+		all, own, cn, ex, end := zone.response(op.Name, k)
+		*en = entry{Has: true, Ver: h.ver, At: now, TTLs: all, Own: own, CN: cn, Ex: ex, End: end, Empty: len(own) == 0, Certain: h.size >= 16,
 			Jumped: op.JumpAt > 0 && sent >= op.JumpAt}
 		want[k] = h.ver
 		if en.Empty {
@@ -464,11 +760,12 @@ func (h *seqHist) resolve(op *seqOp) (stop bool) {
 	if afterFail && h.fail == dohfake.FailNone {
 		h.counts["seq_resolves_after_recovery"]++
 	}
-	got, problem := observe(op.Name, res, func(v int) zoneSpec {
+	got, problem := observe(op.Name, res, func(v int) (string, *[3]rrset) {
 		if v < 0 || v >= len(h.specs) {
-			return nil
+			return "", nil
 		}
-		return h.specs[v]
+		_, end := h.specs[v].chain(op.Name)
+		return end, h.specs[v].Data[end]
 	})
 	op.Got = &got
 	for k := 0; k < 3; k++ {
